@@ -449,11 +449,26 @@ def _text_walk(p, f, pv, op, depth=0, seen=None):
         if m in TEXT_SOURCES:
             leaves.append(("source", m))
             continue
+        if m == "new" and re.search(r"^alloc::(sync|rc|boxed)::", inst) and t["args"] and depth < 12:
+            # Arc::new(v) / Rc::new(v) / Box::new(v): the value itself
+            l2, b2, u2 = _text_walk(p, f, pv, t["args"][0], depth + 1, seen)
+            leaves += l2
+            bad += b2
+            unknown += u2
+            continue
         if (m in VERBATIM or m in OPTION_PLUMBING) and t["args"] and depth < 12:
             l2, b2, u2 = _text_walk(p, f, pv, t["args"][0], depth + 1, seen)
             leaves += l2
             bad += b2
             unknown += u2
+            continue
+        if m in ("unwrap_or", "or", "map_or") and ("option::" in inst or "result::" in inst) and t["args"] and depth < 12:
+            # either the value inside or the alternative
+            for a in t["args"]:
+                l2, b2, u2 = _text_walk(p, f, pv, a, depth + 1, seen)
+                leaves += l2
+                bad += b2
+                unknown += u2
             continue
         if m in TRANSFORM:
             bad.append("%s (line %d)" % (m, t["ln"]))
@@ -512,3 +527,64 @@ def _verbatim(ck, p):
             ck.proved(rule, key, g.loc(t["ln"]), "text argument is %s, unaltered" % ("the server's own copy / the file read" if any(o[0] == "source" for o in leaves) else "the notification's text field"))
         else:
             ck.undecided(rule, key, g.loc(t["ln"]), "text argument not traced to a text field (fields %s, leaves %s)" % (sorted(fields)[:5], sorted(map(str, leaves))[:3]))
+
+
+# ---------------------------------------------------------------------------------------------------
+DROPPING = {"pop", "remove", "truncate", "retain", "retain_mut", "dedup", "dedup_by", "dedup_by_key", "drain", "clear", "swap_remove", "split_off", "insert", "resize", "splice"}
+
+
+def verbatim_source(ck, p, rule, scope, what, floor):
+    """Spans are offsets into the text the caller holds.  Wherever a Document is built from a text that
+    came in from outside (`scope`: a predicate on function names), the character vector handed to
+    Document::new_from_vec is that text character for character: `text.chars().collect()` and copies of
+    it.  A normalising step on the way (line endings folded, a byte-order mark stripped, blanks trimmed)
+    makes every span behind it point one or more characters early in the caller's text."""
+    from .c13 import ops_on
+    n = 0
+    for f in sorted(p.fns.values(), key=lambda g: g.name):
+        if not scope(f) or f.get("kind") == "Closure":
+            continue
+        pv = None
+        k = 0
+        for bi, t in f.calls():
+            inst = norm(inst_of(t))
+            if not (inst.startswith("harper_core::document::{impl}::new_from_vec") or inst.endswith("::document::{impl}::new_from_vec")):
+                continue
+            pv = pv or Prov(f)
+            n += 1
+            k += 1
+            ck.saw(f)
+            key = "%s:source%s" % (keyname(p, f), "" if k == 1 else "#%d" % k)
+            leaves, bad, unknown = _text_walk(p, f, pv, t["args"][0])
+            # a vector that is filled by hand: which element-dropping operations does it see?
+            dropped = []
+            for o in flatten(pv.trace_operand(t["args"][0])):
+                pass
+            locs = set()
+            pl = place_of(t["args"][0])
+            if pl:
+                locs.add(pv.mut_base.get(pl[0], pl[0]))
+            for o in arg_roots(f, pv, t["args"][0]):
+                if o[0] == "call":
+                    ct = f.blocks[o[1]]["t"]
+                    if ct.get("dest") and last(norm(inst_of(ct) or "")) in ("new", "with_capacity", "default") and "vec" in norm(inst_of(ct) or "").lower():
+                        locs.add(ct["dest"][0])
+            for l in locs:
+                try:
+                    dropped += [m for m, _, _ in ops_on(f, pv, l) if m in DROPPING]
+                except Exception:
+                    pass
+            strs = [o for o in leaves if o[0] == "arg"]
+            # a vector filled element by element is not a transform by itself (what is dropped again is)
+            grow = [b for b in bad if b.split(" ")[0] in ("push", "push_str", "extend", "insert", "insert_str")]
+            bad = [b for b in bad if b not in grow]
+            unknown = list(unknown) + grow
+            if bad:
+                ck.refuted(rule, key, f.loc(t["ln"]), "the characters the Document is built from went through %s: the document is a different text than the one the caller holds, and every span behind the altered place is displaced in the caller's text (a lint covers the wrong characters, a fix rewrites the neighbours)" % "; ".join(bad[:3]))
+            elif dropped:
+                ck.refuted(rule, key, f.loc(t["ln"]), "the character vector the Document is built from is filled by hand and has elements taken out again (%s): it is shorter than the text the caller holds, and every span behind a dropped character is displaced in the caller's text" % ", ".join(sorted(set(dropped))))
+            elif unknown or not strs or len(strs) != len(leaves):
+                ck.undecided(rule, key, f.loc(t["ln"]), "the source is not traced to a text parameter through copying conversions only (leaves %s, calls %s)" % (sorted(map(str, leaves))[:3], unknown[:3]))
+            else:
+                ck.proved(rule, key, f.loc(t["ln"]), "source = the text parameter, through chars().collect() and copies only")
+    ck.floor(rule, what, n, floor)
